@@ -285,9 +285,11 @@ def run_case(case, g, tier, res):
     elif kind == "percent":
         def h(c):
             hi = c.fresh_bool("above")
-            v = c.fresh_real("p", 100, 1e9, lo_strict=True) if hi else c.fresh_real("p", -1e9, 0, hi_strict=True)
+            # any real outside [0, 100] (no bound, so that every printing class of the number is inside the claim), in any spelling
+            v = c.fresh_real("p", 100, None, lo_strict=True) if hi else c.fresh_real("p", None, 0, hi_strict=True)
             via = c.fresh_int("via", 0, 2).__index__()
-            text = SymStr.of(".|", Num(v, "float"), "%|")
+            style = (None, "plain", "sci", "sci-short")[c.fresh_int("spelling", 0, 3).__index__()] if via != 2 else None
+            text = SymStr.of(".|", Num(v, "float", style), "%|")
             det = _det("percentage outside 0-100 rejected", lambda mv, c: text_of(c, mv, text), {"via": via})
             if via == 0:
                 f = lambda: g.Mixture(text)
@@ -354,6 +356,7 @@ def run_case(case, g, tier, res):
                 same_id = core.SymBool(pid.e == ltid.e)
             c.assume(Not(And(core.SymBool(same_sym), same_id)))
             ptxt = SymStr.of("N[", ps, *([pid] if pid is not None else []), "]")
+            det = _det("missing or mismatching prefix rejected", lambda mv, c: text_of(c, mv, text) + f" mode={mode} prefix=" + text_of(c, mv, ptxt), {"mode": mode})
             tok = g.SmilesToken(ptxt, 0, 0)
             pre = tok.generate(rng=rng)
             return expect_raise(c, lambda: st.generate(prefix=pre, rng=rng), "missing or mismatching prefix rejected", det)
@@ -487,7 +490,13 @@ def replay(rp, gb):
     elif label == "missing or mismatching prefix rejected":
         text, mode = t.rsplit(" mode=", 1)
         st = gb.Stochastic(text, 0)
-        ok = raises(lambda: st.generate(prefix=None, rng=np.random.default_rng(1))) if mode == "0" else True
+        if " prefix=" in mode:
+            mode, ptxt = mode.split(" prefix=", 1)
+            # rejected means rejected whatever the generator draws: a handful of seeds stand in for the symbolic picks
+            ok = all(raises(lambda: st.generate(prefix=gb.SmilesToken(ptxt, 0, 0).generate(rng=np.random.default_rng(sd)), rng=np.random.default_rng(sd)))
+                     for sd in range(12))
+        else:
+            ok = raises(lambda: st.generate(prefix=None, rng=np.random.default_rng(1))) if mode == "0" else True
     else:
         return False, "unknown label"
     return (not ok), f"{label}: {t!r} -> {'rejected' if ok else 'ACCEPTED'}"
